@@ -74,6 +74,32 @@ Theorem C16_code_checkPassCode_is_model : forall (text : N -> list N) claim pc n
 Proof. exact gen_checkPassCode_is_model. Qed.
 Print Assumptions C16_code_checkPassCode_is_model.
 
+Theorem C16_code_checkHeader_is_model : forall got want : header,
+  jwt_header_err (gen_jwt_checkHeader (h_kid got) (h_alg got) (h_typ got) (h_kid want) (h_alg want) (h_typ want))
+  = check_header got want.
+Proof. exact gen_checkHeader_is_model. Qed.
+Print Assumptions C16_code_checkHeader_is_model.
+
+(** [CheckClaimSet] with both arguments present ([strutil.MakeSet] + lookups
+    as list membership, [strings.Fields] as the model's [fields]). *)
+Theorem C16_code_CheckClaimSet_is_model : forall c tmpl : claims,
+  jwt_claims_err (gen_jwt_CheckClaimSet false false (c_iss c) (c_aud c) (c_typ c) (c_sub c) (c_scope c)
+                    (c_iss tmpl) (c_aud tmpl) (c_typ tmpl) (c_sub tmpl) (c_scope tmpl))
+  = check_claims c tmpl.
+Proof. exact gen_CheckClaimSet_is_model. Qed.
+Print Assumptions C16_code_CheckClaimSet_is_model.
+
+(** The window [NewTimeSigner] / [NewRSATimeSigner] store. *)
+Theorem C16_code_NewTimeSigner_window_is_model : forall w, - two63z < w < two63z ->
+  gen_signer_NewTimeSigner_window w = abs_window w.
+Proof. exact gen_NewTimeSigner_window_is_model. Qed.
+Print Assumptions C16_code_NewTimeSigner_window_is_model.
+
+Theorem C16_code_NewRSATimeSigner_window_is_model : forall w, - two63z < w < two63z ->
+  gen_signer_NewRSATimeSigner_window w = abs_window w.
+Proof. exact gen_NewRSATimeSigner_window_is_model. Qed.
+Print Assumptions C16_code_NewRSATimeSigner_window_is_model.
+
 (** * Property theorems of Props/C16.v, read over the code *)
 
 Theorem C16_code_session_ttl_capped : forall maxttl t0 ttl,
